@@ -223,7 +223,7 @@ func vK05bOptionalChain() {
 	}
 	vAssert(!has(lowered), "the lowered expression contains no optional chain (the target does not support it)")
 
-	pool := make([]hV, 8)
+	pool := make([]hV, 14)
 	for i := range pool {
 		pool[i] = hSymV()
 	}
